@@ -12,7 +12,12 @@ import Astits.Generated.Facts
 namespace Astits.C16
 
 /-- no result of `NextBytesNoCopy` (a view into the reused read buffer or a pooled buffer) escapes into a returned
-value: every call site only indexes the view, takes its length, or passes it to a pure reader -/
+value: every call site assigns it to a local variable that is only READ — indexed, measured with `len`, compared with
+`nil`, ranged over, converted to a string, passed to a pure reader (`binary.BigEndian/LittleEndian.UintNN`,
+`bytes.Equal`, `bytes.IndexByte`, `computeCRC32`), or sliced (`bs[a:b]`) with the slice expression itself used in one
+of these ways.  Every other use (assignment to a field or to another variable, `append`, `return`, a composite
+literal, an argument of any other function, a stored slice expression) is listed by the translator
+(extract/exprs.go, `noCopyStored`), and the list is empty -/
 theorem no_view_escapes : Generated.Facts.noCopyEscapes = [] := by decide
 
 /-- package-level state: error sentinels, the read-only CRC table, and the byte pool -/
